@@ -205,6 +205,10 @@ func (c *Conn) Lose() {
 
 func (c *Conn) ExportKeyingMaterial(label string, context []byte, length int) ([]byte, error) {
 	out := make([]byte, length)
+	if len(c.p.opt.EKM) == length { // a whole exporter output was supplied: both ends of this session see exactly it
+		copy(out, c.p.opt.EKM)
+		return out, nil
+	}
 	for i := range out {
 		out[i] = c.p.opt.EKM[i%len(c.p.opt.EKM)] ^ byte(len(label))
 	}
